@@ -7,7 +7,7 @@ SHARDS = {"quick": 8, "thorough": 16}
 TIMEOUT = {"quick": 900, "thorough": 3600}
 MIN_EVALUATIONS = {"quick": 8000, "thorough": 8000}  # fewer oracle evaluations than this means the workload collapsed: inconclusive
 RULE = ("call histories over {open, close, read, write, big fragmented read, generic_message connected / UCMM / Unconnected Send / connected with unconnected_send=True, list identity, "
-        "get_plc_name, with-block without/with exception} for CIPDriver, LogixDriver (small project, init_tags on/off) and SLCDriver: every history "
+        "get_plc_name, with-block without exception / left through a foreign exception / left through the library's own CommError raised by user code} for CIPDriver, LogixDriver (small project, init_tags on/off) and SLCDriver: every history "
         "of length <= 2 (quick) / <= 3 (thorough) plus seeded random histories up to length 6 (8) x target policies {large Forward Open accepted, "
         "large refused, all Forward Opens refused, session refused, service error on every k-th request, undecodable ListIdentity reply (header-only error / zero items / truncated item)}; each (history, policy) is first "
         "run fault-free to count its I/O operations N, then re-run with one transport fault at operation k (every k in thorough, a spread "
